@@ -884,6 +884,27 @@ func (c *EvalCtx) callSpecWithArgs(sf *SpecFunc, args []Val) Val {
 		}
 		cc.Vars[p.Name] = a
 	}
+	if sf.Uninterpreted {
+		rt := c.resolveType(sf.Result)
+		if rt == nil {
+			evalFail("%s: unknown result type", sf.Name)
+		}
+		rl := leaves(rt)
+		if len(rl) != 1 {
+			evalFail("%s: uninterpreted functions return scalars", sf.Name)
+		}
+		var sorts []Sort
+		var ts []Term
+		for _, p := range sf.Params {
+			for _, t := range cc.Vars[p.Name].T {
+				sorts = append(sorts, t.Sort)
+				ts = append(ts, t)
+			}
+		}
+		name := "uf_" + sanitize(shortPkg(sf.PkgPath)+"."+sf.Name)
+		c.X.S.DeclareFun(name, sorts, rl[0].Sort)
+		return scalar(app(rl[0].Sort, name, ts...), rt)
+	}
 	r := cc.eval(sf.Body)
 	if sf.Result == nil {
 		if r.Typ == nil || !isBool(r.Typ) {
